@@ -26,12 +26,18 @@ def hyper(args):
         execs.append(T.execute(prog, kn))
     for kn, pl in ((KNOBS[0], 1.0), (KNOBS[rng.randrange(len(KNOBS))], 0.4), (KNOBS[rng.randrange(len(KNOBS))], 0.4)):
         execs.append(T.execute(prog, kn, placements=pl, rng=rng))
+    # a program that fuses some legs with an EXPLICIT mode and others with the default one is a different computation under each default mode (hard-fused and
+    # meta-fused legs cannot be combined: C03): its executions are compared only among configurations with the same effective modes (the first one's), i.e. across
+    # tensordot policies and lazy placements; programs that use only the default mode, or only explicit modes, are compared across all configurations
+    modes = {op['mode'] for op in prog.ops if op['op'] == 'fuse'}
+    mixed = 'none' in modes and len(modes) > 1
+    compared = [ex for ex in execs if not mixed or (ex['knob']['fusion'] == tr0['knob']['fusion'] and ex['knob']['force'] == 'none')]
     # hyper events: per program event, the observable summary in every execution
     hev = []
     n = len(tr0['ev'])
     for i in range(n):
         xs = []
-        for ex in execs:
+        for ex in compared:
             if i >= len(ex['ev']):
                 xs.append({'out': 'missing'})
                 continue
@@ -44,7 +50,7 @@ def hyper(args):
             else:
                 xs.append({'out': e.get('out', 'ok') + (':%s' % e['val'] if 'val' in e else '')})
         hev.append({'x': xs})
-    return execs, {'sym': sym, 'seed': seed, 'ev': hev}
+    return execs, {'sym': sym, 'seed': seed, 'ev': hev, 'mixed_modes': mixed, 'compared': len(compared)}
 
 
 def canonical_zero_sector():
@@ -117,7 +123,7 @@ def main(tier, seed, replay=None):
     rep.cov['traces_validated_against_impl'] = len(traces)
     rep.cov['evaluations'] = nev
     rep.cov['distinct_nontrivial'] = sum(1 for h in hypers for e in h['ev'] if any(x.get('sup') and any(x['sup']) for x in e['x']))
-    rep.cov['parts'].update({'programs': len(hypers), 'executions_per_program': len(KNOBS) + 3, 'events_by_op': kinds, 'hyper_events_compared': sum(len(h['ev']) for h in hypers)})
+    rep.cov['parts'].update({'programs': len(hypers), 'executions_per_program': len(KNOBS) + 3, 'programs_mixing_explicit_and_default_fusion_mode (compared within one default mode only)': sum(1 for h in hypers if h.get('mixed_modes')), 'events_by_op': kinds, 'hyper_events_compared': sum(len(h['ev']) for h in hypers)})
     rep.cov['states'] += sum(r.distinct for r in res)
     rep.cov['transitions'] += sum(r.generated for r in res)
     rep.sample({'sym': hypers[0]['sym'], 'seed': hypers[0]['seed'], 'configurations': KNOBS, 'hyper_event': hypers[0]['ev'][-1]})
